@@ -4,7 +4,9 @@
     file round trip) for an ARBITRARY validity check.  Here the check is the real one, [Content.Model.check_valid]
     (C10), and the content is the content of an extension of the working model ([Link.Abs.to_content], C07):
     a valid extension is written, read back to the same content, and that content abstracts ([of_content]) to the
-    extension we started from (as an unordered map: [ext_equiv]).
+    extension we started from (as an unordered map: [ext_equiv]).  The reorientation transform of a conversion with a
+    voxel order is not a field of the working model; it is carried beside the extension ([reo], universally quantified:
+    [to_content_r qtok reo e], [None] = null) and read back by [reo_of_content].
     [qtok] / [tokq] (universally quantified) render / read the float tokens of the affine; hypotheses about them are
     stated for the affine at hand ([aff_toks_ok]: lexically valid floats; [aff_rt]: reading a rendered entry gives it back). *)
 From Coq Require Import List Bool Arith NArith ZArith QArith Lia.
@@ -63,26 +65,32 @@ Proof. repeat split; vm_compute; reflexivity. Qed.
     of the text, from_runtime_repr of the dictionary and the file round trip (nibabel as the hypothesis on [store], as in
     C09_file_roundtrip_partial) all give back the same content; and that content abstracts to the same extension. *)
 Theorem C09_roundtrip_ext :
-  forall (qtok : Q -> str) (tokq : str -> option Q) (store : str -> option str) (e : ext jv),
+  forall (qtok : Q -> str) (tokq : str -> option Q) (reo : option (list (list Q))) (store : str -> option str) (e : ext jv),
     (forall b, store b = Some b) ->
     valid e -> ext_wf_json e = true -> aff_toks_ok qtok (hdr_of e) = true -> aff_rt qtok tokq (hdr_of e) ->
-    JM.to_json CM.check_valid (to_content qtok e) = Ok (JM.print (to_content qtok e)) /\
-    JM.from_json CM.check_valid (JM.print (to_content qtok e)) = Ok (to_content qtok e) /\
-    JM.from_runtime_repr CM.check_valid (to_content qtok e) = Ok (to_content qtok e) /\
-    JM.save_load CM.check_valid store (to_content qtok e) = Ok (to_content qtok e) /\
-    exists e', of_content tokq (to_content qtok e) = Some e' /\ ext_equiv e e'.
+    reo_toks_ok qtok reo = true -> reo_rt qtok tokq reo ->
+    JM.to_json CM.check_valid (to_content_r qtok reo e) = Ok (JM.print (to_content_r qtok reo e)) /\
+    JM.from_json CM.check_valid (JM.print (to_content_r qtok reo e)) = Ok (to_content_r qtok reo e) /\
+    JM.from_runtime_repr CM.check_valid (to_content_r qtok reo e) = Ok (to_content_r qtok reo e) /\
+    JM.save_load CM.check_valid store (to_content_r qtok reo e) = Ok (to_content_r qtok reo e) /\
+    (exists e', of_content tokq (to_content_r qtok reo e) = Some e' /\ ext_equiv e e') /\
+    reo_of_content tokq (to_content_r qtok reo e) = Some reo.
 Proof. exact roundtrip_ext. Qed.
 
 Example C09_roundtrip_ext_nonvacuous :
   valid lx5 /\ ext_wf_json lx5 = true /\ aff_toks_ok qtok_dec (hdr_of lx5) = true /\ aff_rt qtok_dec tokq_dec (hdr_of lx5) /\
-  match of_content tokq_dec (to_content qtok_dec lx5) with
+  reo_toks_ok qtok_dec lx_reo = true /\ reo_rt qtok_dec tokq_dec lx_reo /\
+  match of_content tokq_dec (to_content_r qtok_dec lx_reo lx5) with
   | Some e' => hdr_of e' = hdr_of lx5 /\ map fst (entries e') = [kc; kg; kt; ks; kv; kw] /\
                lookup_e e' kw = lookup_e lx5 kw
   | None => False
-  end.
+  end /\
+  reo_of_content tokq_dec (to_content_r qtok_dec lx_reo lx5) = Some lx_reo /\
+  JM.from_json CM.check_valid (JM.print (to_content_r qtok_dec lx_reo lx5)) = Ok (to_content_r qtok_dec lx_reo lx5).
 Proof.
   split; [apply lx5_ok|]. split; [vm_compute; reflexivity|]. split; [vm_compute; reflexivity|].
-  split; [apply lx_aff_rt|]. vm_compute. repeat split; reflexivity.
+  split; [apply lx_aff_rt|]. split; [vm_compute; reflexivity|].
+  split; [repeat constructor|]. split; [vm_compute; repeat split; reflexivity|]. split; vm_compute; reflexivity.
 Qed.
 
 (** the executable rendering of affine entries, [qtok_dec] (exact decimal expansion: sign, integer part, '.', at least one
